@@ -130,7 +130,10 @@ fn real_main() -> i32 {
     let _ = log::set_logger(&LOGGER);
     log::set_max_level(log::LevelFilter::Off);
     // panics inside the code under test are caught and classified; keep stderr quiet
-    std::panic::set_hook(Box::new(|_| {}));
+    // (VERIF_PANIC_TRACE=1 keeps the default hook: for debugging the harness itself)
+    if std::env::var_os("VERIF_PANIC_TRACE").is_none() {
+        std::panic::set_hook(Box::new(|_| {}));
+    }
     gen::load_dictionary();
     match args.first().map(|s| s.as_str()) {
         Some("check") if args.len() >= 3 => {
